@@ -107,6 +107,10 @@ pub async fn run_suite(suite: &str, seed: u64, cases: usize) -> (String, String)
                     let mut xr = crng.fork();
                     gen_proc_two_setmax_only(&mut sim, &mut xr, &mut stats, &format!("{name}x")).await;
                 }
+                if case % 10 == 7 {
+                    let mut xr = crng.fork();
+                    gen_proc_stale_catchup_mid_reset(&mut sim, &mut xr, &mut stats, &format!("{name}y")).await;
+                }
             }
             "delta" => gen_delta(&mut sim, &mut crng, &mut stats, &name).await,
             "fill" => gen_fill(&mut sim, &mut crng, &mut stats, &name).await,
@@ -2197,6 +2201,68 @@ async fn gen_proc_two_setmax_only(sim: &mut Sim, rng: &mut Prng, stats: &mut Sta
     full_handshake(sim, s, p);
     full_handshake(sim, s, y);
     stats.bump("cases_two_setmax_only");
+}
+
+// Round 13 (C02m): a copy left mid-reset by a reply the datagram limit cut (watermark W above its
+// max version) is offered, through the external catch-up, what a STALE peer holds about the owner:
+// max version strictly between the copy's and W, still listing a key whose delete the owner has
+// collected.  The snapshot is obsolete and must change nothing; gossip then completes the copy.
+async fn gen_proc_stale_catchup_mid_reset(sim: &mut Sim, rng: &mut Prng, stats: &mut Stats, name: &str) {
+    sim.start_case(name);
+    sim.no_events();
+    let kv_grace: u64 = 1_000_000;
+    let mk = |nm: &str, port: u16| {
+        let mut s = NodeSpec::simple(mk_id(nm, 0, port));
+        s.kv_grace_ns = kv_grace;
+        s
+    };
+    let x = sim.join(mk("owner", 2211));
+    let n = sim.join(mk("lagging", 2212));
+    let m = sim.join(mk("stale", 2213));
+    let b_len = rng.range(28_000, 32_000) as usize;
+    let big_len = rng.range(38_000, 42_000) as usize;
+    let b_val = high_entropy_string(rng, b_len);
+    let big_val = high_entropy_string(rng, big_len);
+    sim.set(x, "a", "1");
+    sim.set(x, "b", &b_val);
+    full_handshake(sim, n, x); // n: a@1 b@2
+    sim.set(x, "big", &big_val);
+    sim.set(x, "d", "4");
+    for _ in 0..3 {
+        full_handshake(sim, m, x); // m: a b big d, max 4
+    }
+    sim.delete(x, "a"); // @5
+    let extra = rng.below(3);
+    for i in 0..extra {
+        sim.set(x, &format!("e{i}"), "v");
+    }
+    sim.tick(kv_grace + 1).await;
+    sim.gc(x); // watermark 5
+    full_handshake(sim, n, x); // reset cut after b@2: n at (5, 2)
+    let xid = sim.nodes[x].spec.id.clone();
+    let fetched = sim.nodes[m].chitchat.node_state(&xid).map(|ns| {
+        let kvs: Vec<(String, String, u64, u8)> = ns
+            .key_values_including_deleted()
+            .map(|(k, vv)| {
+                let st = match vv.status {
+                    DeletionStatus::Set => 0u8,
+                    DeletionStatus::Deleted(_) => 1,
+                    DeletionStatus::DeleteAfterTtl(_) => 2,
+                };
+                (k.to_string(), vv.value.clone(), vv.version, st)
+            })
+            .collect();
+        (kvs, ns.max_version(), ns.last_gc_version())
+    });
+    if let Some((kvs, mx, gc)) = fetched {
+        sim.raw_record(&format!("HONEST {m}"), "ok");
+        sim.catchup(n, &xid, &kvs, mx, gc);
+    }
+    for _ in 0..3 {
+        full_handshake(sim, n, x);
+    }
+    full_handshake(sim, m, n);
+    stats.bump("cases_stale_catchup_mid_reset");
 }
 
 fn full_handshake(sim: &mut Sim, a: usize, b: usize) {
